@@ -17,7 +17,7 @@ ASSUMPTIONS = ['sparse.coo_matrix modelled as dense accumulation where duplicate
 REQUIRED_CLASSES = ['freq-below-range', 'freq-above-range', 'freq-in-range', 'two-samples-same-cell']
 EXPECTED_LABELS = ['never-raises', 'dense-equals-bruteforce', 'sparse-equals-dense', 'marginal-1d-equals-bruteforce',
                    'marginals-agree', 'total-in-range']
-BUDGET_S = {'quick': 150, 'thorough': 1200}
+BUDGET_S = {'quick': 150, 'thorough': 900}
 
 
 def configs(tier):
